@@ -366,26 +366,165 @@ def build_ens(T, d):
     return ml.ConformerEnsemble(mols)
 
 
-def run_impl(T, d):
-    """-> (written text, read-back object(s), second-cycle text); raises what the implementation raises."""
+def cls_of(k):
     import molli as ml
+    return {"mol": ml.Molecule, "struct": ml.Structure, "ens": ml.ConformerEnsemble}[k]
+
+
+def build_obj(T, d):
     k = d["kind"]
     if k in ("mol", "struct"):
-        cls = ml.Molecule if k == "mol" else ml.Structure
-        obj = build_mol(T, d, cls, d.get("route", 0))
-        text = obj.dumps_mol2()
-        back = cls.loads_mol2(text)
-        return obj, text, back, back.dumps_mol2()
+        return build_mol(T, d, cls_of(k), d.get("route", 0))
     if k == "ens":
-        obj = build_ens(T, d)
+        return build_ens(T, d)
+    return [build_mol(T, m, cls_of("mol" if d["wq"] else "struct")) for m in d["mols"]]
+
+
+def observe(d, obj):
+    """-> (written text, read-back object(s), second-cycle text); raises what the implementation raises."""
+    k = d["kind"]
+    if k in ("mol", "struct", "ens"):
         text = obj.dumps_mol2()
-        back = ml.ConformerEnsemble.loads_mol2(text)
-        return obj, text, back, back.dumps_mol2()
-    cls = ml.Molecule if d["wq"] else ml.Structure
-    objs = [build_mol(T, m, cls) for m in d["mols"]]
-    text = "".join(o.dumps_mol2() for o in objs)
-    back = cls.loads_all_mol2(text)
-    return objs, text, back, "".join(o.dumps_mol2() for o in back)
+        back = cls_of(k).loads_mol2(text)
+        return text, back, back.dumps_mol2()
+    text = "".join(o.dumps_mol2() for o in obj)
+    back = cls_of("mol" if d["wq"] else "struct").loads_all_mol2(text)
+    return text, back, "".join(o.dumps_mol2() for o in back)
+
+
+# ------------------------------------------------------------------ write -> mutate -> write again
+def desc_of_obj(T, obj, kind):
+    """the public state of an object, as a case description"""
+    import numpy as np
+    atoms = [{"e": T["epos"][a.element], "t": T["apos"][a.atype], "g": T["gpos"][a.geom], "label": a.label} for a in obj.atoms]
+    bonds = [[obj.atoms.index(b.a1), obj.atoms.index(b.a2), T["bpos"][b.btype]] for b in obj.bonds]
+    n = len(atoms)
+    if kind == "ens":
+        C = np.asarray(obj.coords, dtype=float).reshape(obj.n_conformers, n, 3)
+        Q = np.asarray(obj.atomic_charges, dtype=float).reshape(obj.n_conformers, n)
+        confs = [{"coords": [[float(x).hex() for x in row] for row in C[c]], "charges": [float(q).hex() for q in Q[c]]}
+                 for c in range(obj.n_conformers)]
+    else:
+        C = np.asarray(obj.coords, dtype=float).reshape(n, 3)
+        Q = np.asarray(obj.atomic_charges, dtype=float).reshape(n) if kind == "mol" else np.zeros(n)
+        confs = [{"coords": [[float(x).hex() for x in row] for row in C], "charges": [float(q).hex() for q in Q]}]
+    return {"kind": kind, "route": 0, "name": obj.name, "atoms": atoms, "bonds": bonds, "confs": confs}
+
+
+OPS = ["btype", "btype", "btype", "atom", "label", "coord", "charge", "name", "addbond", "delbond", "addatom", "delatom"]
+
+
+def mutate(T, d, obj, rng, n_ops, log):
+    """apply n_ops random edits through the public API to obj and the same edits to the description d (in place)"""
+    from molli.chem import Atom, Bond
+    kind = d["kind"]
+    for _ in range(n_ops):
+        op = rng.choice(OPS)
+        n, nb, nc = len(d["atoms"]), len(d["bonds"]), len(d["confs"])
+        if op == "btype" and nb:
+            k, bt = rng.randrange(nb), rng.randrange(len(T["bts"]))
+            obj.bonds[k].btype = T["bts"][bt]
+            d["bonds"][k][2] = bt
+        elif op == "atom" and n:
+            i, e, t, g = rng.randrange(n), rng.randrange(len(T["els"])), rng.randrange(len(T["ats"])), rng.randrange(len(T["gs"]))
+            a = obj.atoms[i]
+            a.element, a.atype, a.geom = T["els"][e], T["ats"][t], T["gs"][g]
+            d["atoms"][i].update(e=e, t=t, g=g)
+        elif op == "label" and n:
+            i, lbl = rng.randrange(n), rand_label(rng)
+            obj.atoms[i].label = lbl
+            d["atoms"][i]["label"] = lbl
+        elif op == "coord" and n:
+            c, i = rng.randrange(nc), rng.randrange(n)
+            xyz = [rand_coord(rng) for _ in range(3)]
+            if kind == "ens":
+                obj.coords[c][i] = xyz
+            else:
+                obj.coords[i] = xyz
+            d["confs"][c]["coords"][i] = [x.hex() for x in xyz]
+        elif op == "charge" and n and kind != "struct":
+            c, i, q = rng.randrange(nc), rng.randrange(n), rand_charge(rng)
+            if kind == "ens":
+                obj.atomic_charges[c][i] = q
+            else:
+                obj.atomic_charges[i] = q
+            d["confs"][c]["charges"][i] = q.hex()
+        elif op == "name":
+            nm = rng.choice(NAME_POOL)
+            obj.name = nm
+            d["name"] = nm
+        elif op == "addbond" and n >= 2:
+            i, j = rng.sample(range(n), 2)
+            bt = rng.randrange(len(T["bts"]))
+            obj.append_bond(Bond(obj.atoms[i], obj.atoms[j], btype=T["bts"][bt]))
+            d["bonds"].append([i, j, bt])
+        elif op == "delbond" and nb:
+            # Bond.__eq__ compares endpoint sets, so del_bond of one of two parallel bonds is ambiguous (C05's
+            # business): only a bond whose endpoint pair is unique is deleted here
+            pairs = [frozenset(b[:2]) for b in d["bonds"]]
+            uniq = [k for k in range(nb) if pairs.count(pairs[k]) == 1]
+            if not uniq:
+                continue
+            k = rng.choice(uniq)
+            obj.del_bond(obj.bonds[k])
+            del d["bonds"][k]
+        elif op == "addatom" and kind != "ens":
+            e, t, g, lbl = rng.randrange(len(T["els"])), rng.randrange(len(T["ats"])), rng.randrange(len(T["gs"])), rand_label(rng)
+            xyz, q = [rand_coord(rng) for _ in range(3)], rand_charge(rng)
+            a = Atom(T["els"][e], label=lbl, atype=T["ats"][t], geom=T["gs"][g])
+            if kind == "mol":
+                obj.add_atom(a, xyz, q)
+            else:
+                obj.add_atom(a, xyz)
+            d["atoms"].append({"e": e, "t": t, "g": g, "label": lbl})
+            d["confs"][0]["coords"].append([x.hex() for x in xyz])
+            d["confs"][0]["charges"].append(q.hex())
+        elif op == "delatom" and n and kind != "ens":
+            i = rng.randrange(n)
+            obj.del_atom(obj.atoms[i])
+            del d["atoms"][i]
+            d["bonds"] = [[a1 - (a1 > i), a2 - (a2 > i), bt] for a1, a2, bt in d["bonds"] if i not in (a1, a2)]
+            del d["confs"][0]["coords"][i]
+            del d["confs"][0]["charges"][i]
+        else:
+            continue
+        log.append(op)
+
+
+def build_rewrite(T, d, log=None):
+    """write once (so that anything memoised is), optionally continue from the object READ from that text, edit, and
+    hand back the edited object with the description of its current state"""
+    import copy, random
+    log = [] if log is None else log
+    base = copy.deepcopy(d["base"])
+    obj = build_obj(T, base)
+    first = obj.dumps_mol2()
+    if d["via_read"]:
+        obj = cls_of(base["kind"]).loads_mol2(first)
+        obj.dumps_mol2()
+        base = desc_of_obj(T, obj, base["kind"])
+    rng = random.Random(d["seed"])
+    mutate(T, base, obj, rng, d["n_ops"], log)
+    if d.get("twice"):          # write, edit again: every write must reflect the state at that moment
+        obj.dumps_mol2()
+        mutate(T, base, obj, rng, d["n_ops"], log)
+    return obj, base
+
+
+def gen_rewrite_cases(ctx, T, n_cases):
+    rng = ctx.rng
+    counter = [0, 0]
+    out = []
+    for k in range(n_cases):
+        n = rng.choice([1, 2, 3, 5, 8])
+        atoms, bonds = rand_topology(rng, T, counter, n, rng.choice([1, n, 2 * n]))
+        kind = ["mol", "mol", "struct", "ens"][k % 4]
+        nc = rng.choice([1, 2, 3]) if kind == "ens" else 1
+        base = {"kind": kind, "route": rng.randrange(2), "name": rng.choice(NAME_POOL), "atoms": atoms, "bonds": bonds,
+                "confs": [rand_conf(rng, n) for _ in range(nc)]}
+        out.append({"kind": "rewrite", "base": base, "via_read": bool((k // 4) % 2), "twice": bool((k // 8) % 2),
+                    "seed": rng.randrange(1 << 30), "n_ops": rng.choice([1, 2, 4, 8])})
+    return out
 
 
 # ------------------------------------------------------------------ Coq terms
@@ -541,15 +680,24 @@ def fixed_point_sig(t1, t2):
     return "C07:fixed-point:text", "number of lines changed"
 
 
-def judge(T, d):
-    """-> (violations [(sig, text)], text or None, back or None)"""
+def judge(T, d, log=None):
+    """-> (violations [(sig, text)], text or None, back or None, description of the state that was written)"""
     import numpy as np
+    import traceback
+    pre = ""
+    if d["kind"] == "rewrite":
+        try:
+            obj, d = build_rewrite(T, d, log)
+        except Exception as ex:
+            return [(f"C07:edit-error:{type(ex).__name__}", f"write / edit / write again raised {type(ex).__name__}: {ex}")], None, None, None
+        pre = "after write + edit: "
+    else:
+        obj = build_obj(T, d)
     try:
-        obj, text, back, text2 = run_impl(T, d)
+        text, back, text2 = observe(d, obj)
     except Exception as ex:  # the property promises that own output reads back
-        import traceback
         where = "write" if "dump" in "".join(traceback.format_tb(ex.__traceback__)[-3:]) else "read"
-        return [(f"C07:{where}-error:{type(ex).__name__}", f"{d['kind']} round trip raised {type(ex).__name__}: {ex}")], None, None
+        return [(f"C07:{where}-error:{type(ex).__name__}", f"{pre}{d['kind']} round trip raised {type(ex).__name__}: {ex}")], None, None, d
     out = []
     k = d["kind"]
     if k in ("mol", "struct"):
@@ -579,7 +727,7 @@ def judge(T, d):
     if text2 != text:
         sig, what = fixed_point_sig(text, text2)
         out.append((sig, "second write differs from the first: " + what))
-    return out, text, back
+    return [(sg, pre + wh) for sg, wh in out], text, back, d
 
 
 # ------------------------------------------------------------------ search on the table (when a table theorem breaks)
@@ -702,6 +850,8 @@ def case_key(d):
 
 
 def n_atoms_of(d):
+    if d["kind"] == "rewrite":
+        return len(d["base"]["atoms"])
     return sum(len(m["atoms"]) for m in d["mols"]) if d["kind"] == "all" else len(d["atoms"])
 
 
@@ -758,15 +908,20 @@ def run(ctx, rep):
 
     # ---- tie H
     n_cases = 6000 if ctx.thorough else 600
-    descs = gen_cases(ctx, T, n_cases)
+    descs = gen_cases(ctx, T, n_cases) + gen_rewrite_cases(ctx, T, 1000 if ctx.thorough else 120)
     terms, kept = [], []
     for d in descs:
-        vs, text, back = judge(T, d)
+        oplog = []
+        vs, text, back, d_eff = judge(T, d, oplog)
+        for op in oplog:
+            rep.count("edit:" + op)
         key = case_key(d) if n_atoms_of(d) > 0 else None
         rep.case(key=key, sample={"kind": d["kind"], "atoms": n_atoms_of(d), "text_head": (text or "")[:120]} if key else None)
         rep.count("kind:" + d["kind"])
         rep.count("atoms:0" if n_atoms_of(d) == 0 else "atoms:>0")
-        if d["kind"] != "all":
+        if d["kind"] == "rewrite":
+            rep.count("rewrite:" + ("read-then-edit" if d["via_read"] else "built-then-edit"))
+        elif d["kind"] != "all":
             rep.count("bonds:0" if not d["bonds"] else "bonds:>0")
             for c in d["confs"]:
                 for row in c["coords"]:
@@ -780,14 +935,14 @@ def run(ctx, rep):
             found = found or sig not in known     # a recorded finding does not explain a broken obligation
             rep.violate(sig, what, {"kind": "case", "desc": d})
         if text is not None:
-            t, notes = case_term(T, d, text, back)
+            t, notes = case_term(T, d_eff, text, back)
             terms.append(t)
             kept.append(d)
             for nnote in notes:
                 rep.count("note:" + nnote.split(":")[0])
     used = {"e": set(), "t": set(), "g": set(), "b": set()}
     for d in descs:
-        for m in (d["mols"] if d["kind"] == "all" else [d]):
+        for m in (d["mols"] if d["kind"] == "all" else [d["base"]] if d["kind"] == "rewrite" else [d]):
             for a in m["atoms"]:
                 used["e"].add(a["e"]); used["t"].add(a["t"]); used["g"].add(a["g"])
             for b in m["bonds"]:
@@ -811,7 +966,7 @@ def run(ctx, rep):
             # the oracle already judged every case; widen around the mismatching ones before giving up
             hit = found
             for i in bad[:20]:
-                for d2 in ([] if kept[i]["kind"] == "pyws" else neighbourhood(ctx, kept[i])):
+                for d2 in ([] if kept[i]["kind"] in ("pyws", "rewrite") else neighbourhood(ctx, kept[i])):
                     for sig, what in judge(T, d2)[0]:
                         hit = hit or sig not in known
                         rep.violate(sig, what, {"kind": "case", "desc": d2})
